@@ -37,6 +37,14 @@ CLAIMED = {
              "one item under any chunking. Tied to the code by whole-range field sweeps, pairwise boundaries, 16-bit word "
              "sweeps and an independent string-formatting encoder as oracle.",
         design="§7 C13", technique="Lean 4 proof (shift/or to sum, omega) + correspondence check"),
+    "C04": dict(
+        text="int_unsigned_msb / int_signed_msb (with twos_is_signed_value relating the spec to BitVec.toInt) / int_lsb / "
+             "float_ieee_msb / float_ieee_lsb / float_mil_msb / cursor / class_uncalibrated prove for every buffer, offset and "
+             "width that the mirror of IntegerDataEncoding/FloatDataEncoding returns the unsigned or two's-complement value of the "
+             "field's bits (byte-reversed for LSB-first whole bytes), the IEEE-754 / MIL-1750A value of the bit pattern, advances "
+             "the cursor by the width and returns Int/Float classes. struct.unpack is assumed to compute the Spec-level ieeeDecode "
+             "and validated against an independent Fraction-based decoder on every run.",
+        design="§7 C04", technique="Lean 4 proof (bit algebra on top of C03) + correspondence check"),
 }
 
 NOT_YET = "check not built yet (work in progress; see DESIGN.md §11 build order)"
